@@ -1,5 +1,9 @@
 """CPython cross-check of the interpreter (bounded; trust in the tool, not a proof of anything about cubed).
 
+Two modes: concrete arguments, and the same arguments as *symbolic* integers pinned by assumptions (so that forking,
+solver-decided branches and symbolic sequences are exercised on inputs whose answer CPython gives); functions that need
+a contract's environment (assumed geomspace, offsets) are skipped in the symbolic mode and counted as such.
+
 Pure functions of /repo that the contracts interpret are run on random *concrete* arguments twice: by the pyvc
 interpreter (the same code path the symbolic runs use, with every value concrete) and by CPython in /venv.  Results —
 returned values or the exception type — must agree.  A disagreement means the interpreter misreads Python: the check
@@ -155,16 +159,49 @@ def _norm(v):
     return repr(v)
 
 
-def _dec(it, v):
+def _dec(it, v, symbolic=False):
     if isinstance(v, dict) and "__BufferCopies__" in v:
         BC = it.world.lookup("cubed.primitive.memory:BufferCopies")
-        return it.call(BC, list(v["__BufferCopies__"]), {})
+        return it.call(BC, [_dec(it, x, symbolic) for x in v["__BufferCopies__"]], {})
     if isinstance(v, list):
-        return tuple(_dec(it, x) for x in v)
+        return tuple(_dec(it, x, symbolic) for x in v)
+    if symbolic and isinstance(v, int) and not isinstance(v, bool):
+        # the same value as a *symbolic* integer pinned by an assumption: exercises the symbolic code paths of the
+        # interpreter (forking, symbolic sequences, solver-decided branches) on an input whose answer CPython gives
+        x = it.ctx.fresh_int("xc")
+        it.ctx.assume(x == v)
+        return x
     return v
 
 
-def run(seed=0, n=6, repo="/repo"):
+def _settle(ctx, v):
+    """replace determined symbolic scalars by their values (model + entailment)"""
+    import z3
+
+    from .interp import GenList
+
+    if isinstance(v, (sym.SInt, sym.SBool, sym.SReal)):
+        s = z3.simplify(v.t)
+        if z3.is_int_value(s) or z3.is_true(s) or z3.is_false(s) or z3.is_rational_value(s):
+            return v
+        r, m = ctx._check()
+        if m is not None:
+            val = m.eval(v.t, model_completion=True)
+            if ctx.entails(v.t == val):
+                return sym.wrap(val)
+        return v
+    if isinstance(v, tuple):
+        return tuple(_settle(ctx, x) for x in v)
+    if isinstance(v, (list, GenList)):
+        return [_settle(ctx, x) for x in v]
+    if isinstance(v, dict):
+        return {k: _settle(ctx, x) for k, x in v.items()}
+    if isinstance(v, slice):
+        return slice(_settle(ctx, v.start), _settle(ctx, v.stop), _settle(ctx, v.step))
+    return v
+
+
+def run(seed=0, n=6, repo="/repo", symbolic=False):
     from .interp import Interp
 
     rng = random.Random(seed)
@@ -193,9 +230,15 @@ def run(seed=0, n=6, repo="/repo"):
             kw2 = dict(kw)
             as_list = kw2.pop("__list__", False)
             try:
-                r = it.call(f, [_dec(it, a) for a in args], kw2)
+                r = it.call(f, [_dec(it, a, symbolic) for a in args], kw2)
                 if as_list:
                     r = list(it.iterate(r))
+                if symbolic:
+                    from .symseq import SymSeq
+
+                    if isinstance(r, SymSeq):
+                        r = list(r._pyvc_iter(it)) if r.concrete_len() else r
+                    r = _settle(ctx, r)
                 got = {"ok": _norm(r)}
             except PyExc as e:
                 got = {"exc": e.tname}
@@ -215,7 +258,7 @@ def run(seed=0, n=6, repo="/repo"):
 if __name__ == "__main__":
     import sys
 
-    t = run(int(sys.argv[1]) if len(sys.argv) > 1 else 0, int(sys.argv[2]) if len(sys.argv) > 2 else 6)
+    t = run(int(sys.argv[1]) if len(sys.argv) > 1 else 0, int(sys.argv[2]) if len(sys.argv) > 2 else 6, symbolic=len(sys.argv) > 3 and sys.argv[3] == "symbolic")
     print(json.dumps({k: [v["cases"], v.get("skipped", 0)] for k, v in t.items()}))
     bad = {k: v for k, v in t.items() if v["disagreements"]}
     for k, v in bad.items():
